@@ -60,6 +60,25 @@ func sceneGenesis(o ReqOpts) {
 		vf.SetBalance(s.Provs[i], balP[i])
 	}
 	distinct(append(append([]sdk.AccAddress{}, s.Provs...), s.Consumer, s.Owner)...)
+	// a second context of another consumer with one pending, fee-carrying request to another provider
+	// (its position in the pending-request index relative to the first context's requests is arbitrary)
+	c2, p2 := vf.Addr("consumer2", 20), vf.Addr("provider2", 20)
+	distinct(append(append([]sdk.AccAddress{}, s.Provs...), s.Consumer, s.Owner, c2, p2)...)
+	id2 := vf.Bytes("ctx2", 40)
+	vf.Assume(string(id2) != string(id))
+	fee2 := vf.Amount("fee2")
+	vf.Assume(fee2.IsPositive())
+	rc2pre := types.NewRequestContext(Svc, []sdk.AccAddress{p2}, c2, InputOK, coins(fee2), 1, false, true, 5, -1, 1, 1, 0, 1, types.BATCHRUNNING, types.RUNNING, 1, "")
+	k.SetRequestContext(ctx, id2, rc2pre)
+	rid2 := types.GenerateRequestID(id2, 1, s.H-1, 0)
+	vf.Assume(s.H >= 2)
+	k.SetCompactRequest(ctx, rid2, types.NewCompactRequest(id2, 1, p2, coins(fee2), s.H-1, s.H+1))
+	k.AddActiveRequest(ctx, Svc, p2, s.H+1, rid2)
+	k.AddRequestBatchExpiration(ctx, id2, s.H+1)
+	balC2 := vf.Amount("balConsumer2")
+	vf.SetBalance(c2, balC2)
+	esc0 := s.Esc0.Add(fee2)
+	vf.SetModuleBalance(types.RequestAccName, esc0)
 
 	panicked := vf.Try(func() { service.PrepForZeroHeightGenesis(ctx, k) })
 	chk("C19 C20", !panicked, "prep-no-panic")
@@ -77,13 +96,14 @@ func sceneGenesis(o ReqOpts) {
 		chk("C19", vf.Balance(s.Provs[i]).Sub(balP[i]).Equal(s.Earned0[i]), "earnings-returned-to-their-provider")
 	}
 	chk("C19", vf.Balance(s.Consumer).Sub(s.BalC0).Equal(refund), "pending-fees-returned-to-consumer")
-	chk("C19 C01", s.Esc0.Sub(vf.ModuleBalance(types.RequestAccName)).Equal(refund.Add(earned)), "escrow-emptied-of-all-obligations")
+	chk("C19", vf.Balance(c2).Sub(balC2).Equal(fee2), "pending-fee-of-every-context-returned")
+	chk("C19 C01", esc0.Sub(vf.ModuleBalance(types.RequestAccName)).Equal(refund.Add(earned).Add(fee2)), "escrow-emptied-of-all-obligations")
 	rc, found := k.GetRequestContext(ctx, id)
 	chk("C19", vf.All(found, rc.State == types.PAUSED, rc.BatchState == types.BATCHCOMPLETED, rc.BatchRequestCount == 0, rc.BatchResponseCount == 0), "contexts-paused-with-no-batch-in-flight")
 
 	gs := service.ExportGenesis(ctx, k)
 	chk("C19", types.ValidateGenesis(*gs) == nil, "exported-genesis-validates")
-	chk("C19", vf.All(len(gs.Definitions) == 1, len(gs.Bindings) == s.N, len(gs.RequestContexts) == 1), "export-lists-all-records")
+	chk("C19", vf.All(len(gs.Definitions) == 1, len(gs.Bindings) == s.N, len(gs.RequestContexts) == 2), "export-lists-all-records")
 	nWA := 0
 	if hasWA {
 		nWA = 1
@@ -98,7 +118,7 @@ func sceneGenesis(o ReqOpts) {
 	vf.Assume(!ipanic)
 	gs2 := service.ExportGenesis(ctx2, k2)
 	chk("C19", sameParams(gs.Params, gs2.Params), "params-survive")
-	chk("C19", vf.All(len(gs2.Definitions) == 1, len(gs2.Bindings) == s.N, len(gs2.RequestContexts) == 1, len(gs2.WithdrawAddresses) == nWA), "second-export-same-sizes")
+	chk("C19", vf.All(len(gs2.Definitions) == 1, len(gs2.Bindings) == s.N, len(gs2.RequestContexts) == 2, len(gs2.WithdrawAddresses) == nWA), "second-export-same-sizes")
 	if len(gs2.Definitions) == 1 && len(gs.Definitions) == 1 {
 		a, b := gs.Definitions[0], gs2.Definitions[0]
 		chk("C19", vf.All(a.Name == b.Name, a.Schemas == b.Schemas, a.Author.Equals(b.Author), a.Description == b.Description), "definitions-survive")
@@ -110,6 +130,9 @@ func sceneGenesis(o ReqOpts) {
 	}
 	rc2, found2 := k2.GetRequestContext(ctx2, id)
 	chk("C19", vf.And(found2, sameContext(rc, rc2)), "contexts-survive")
+	y1, fy1 := k.GetRequestContext(ctx, id2)
+	y2, fy2 := k2.GetRequestContext(ctx2, id2)
+	chk("C19", vf.All(fy1, fy2, y1.State == types.PAUSED, sameContext(y1, y2)), "second-context-survives")
 	if hasWA {
 		chk("C19", k2.GetWithdrawAddress(ctx2, s.Owner).Equals(wa), "withdraw-addresses-survive")
 	}
